@@ -154,3 +154,20 @@ int nettle_rsa_sha256_verify(const struct rsa_public_key *key,
 }
 void mpz_clear(mpz_t x) {}
 void nettle_rsa_public_key_clear(struct rsa_public_key *key) {}
+
+/* ---- observation hooks (SUPLA_VERIF_HOOKS) ---- */
+int fw_hook_rs_log = 0;
+void supla_verif_hook_rs_set_relay(supla_roller_shutter_cfg_t *rs_cfg, uint8 value,
+                                   uint8 cancel_task, uint8 stop_delay) {
+  if (fw_hook_rs_log && rs_cfg->up && rs_cfg->down) {
+    int zero_margin = supla_esp_cfg.AdditionalTimeMargin[rs_cfg->up->channel] == 0;
+    int pos = supla_esp_gpio_rs_get_current_position(rs_cfg);
+    sdk_out("SETRELAY %d %u %u %d %d %u %u %llu", (int)(rs_cfg - supla_rs_cfg), value, stop_delay,
+            zero_margin && pos == 0, zero_margin && pos == 100,
+            (unsigned)rs_cfg->up->gpio_id, (unsigned)rs_cfg->down->gpio_id,
+            (unsigned long long)sdk_now_us);
+  }
+}
+void supla_verif_hook_rs_trigger_fired(supla_roller_shutter_cfg_t *rs_cfg) {
+  if (fw_hook_rs_log) sdk_out("TRIGFIRE %d %llu", (int)(rs_cfg - supla_rs_cfg), (unsigned long long)sdk_now_us);
+}
